@@ -126,8 +126,8 @@ class MiniEval:
                 if isinstance(st.value, ast.Constant):
                     continue
                 self.expr(st.value, env)
-            elif isinstance(st, ast.Pass):
-                continue
+            elif isinstance(st, (ast.Pass, ast.Import, ast.ImportFrom)):
+                continue          # function-level imports: the names are resolved through the index when they are used
             elif isinstance(st, ast.For) and not st.orelse:
                 seq = self.expr(st.iter, env)
                 if isinstance(seq, _Unknown) or not isinstance(seq, (list, tuple, str, dict)):
@@ -217,6 +217,13 @@ class MiniEval:
             raise Undetermined('name %s' % e.id)
         if isinstance(e, (ast.List, ast.Tuple)):
             return [self.expr(x, env) for x in e.elts]
+        if isinstance(e, ast.Dict) and all(k is not None for k in e.keys):
+            try:
+                return {self.expr(k, env): self.expr(v, env) for k, v in zip(e.keys, e.values)}
+            except TypeError as ex:
+                raise Undetermined('dict literal: %s' % ex)
+        if isinstance(e, ast.Lambda):
+            return _Lambda(e, dict(env))
         if isinstance(e, ast.UnaryOp):
             v = self.expr(e.operand, env)
             if isinstance(e.op, ast.Not):
@@ -296,6 +303,18 @@ class MiniEval:
                     return self.resolver(e)
                 except Undetermined:
                     pass
+            if isinstance(e.value, ast.Name) and e.value.id not in env and self.owner is not None:
+                # class-level constant (table of builders, compiled pattern ...) of the owner or of a class named here
+                tgt = self.owner if e.value.id in ('self', 'cls') else self.idx.resolve_class(self.owner.mod, e.value)
+                if tgt is None:
+                    ks = self.idx.classes_by_name.get(e.value.id, [])
+                    tgt = ks[0] if len(ks) == 1 else None
+                if tgt is not None:
+                    k, node = self.idx.class_attr(tgt, e.attr)
+                    if node is not None:
+                        sub = MiniEval(self.idx, k, self.resolver, self.depth + 1, self.globals)
+                        sub.call_hook = self.call_hook
+                        return sub.expr(node, {})
             base = self.expr(e.value, env)
             if isinstance(base, (_dt.datetime, _dt.date)) and e.attr in ('year', 'month', 'day', 'hour', 'minute', 'second'):
                 return getattr(base, e.attr)
@@ -346,6 +365,14 @@ class MiniEval:
         for x in list(args) + list(kwargs.values()):
             if isinstance(x, _Unknown):
                 raise Undetermined(x.why)
+        if isinstance(f, ast.Name) and isinstance(env.get(f.id), _Lambda):
+            lam = env[f.id]
+            params = [a.arg for a in lam.node.args.args]
+            if len(args) != len(params) or kwargs:
+                raise Undetermined('lambda call shape')
+            env2 = dict(lam.env)
+            env2.update(zip(params, args))
+            return self.expr(lam.node.body, env2)
         if isinstance(f, ast.Name):
             if f.id in ('int', 'len', 'str', 'bool', 'abs', 'float', 'tuple', 'list', 'min', 'max', 'round') and not kwargs:
                 try:
@@ -492,6 +519,14 @@ class _Match:
 
     def __len__(self):
         return len(self.m.group())
+
+
+class _Lambda:
+    """a lambda met in interpreted code: parameters + body + the environment it closes over"""
+
+    def __init__(self, node, env):
+        self.node = node
+        self.env = env
 
 
 class Obj:
@@ -651,6 +686,51 @@ def unit_delta_table(fn, consts):
             table[L] = nf + (ln,)
     facts = {'value_var': valvar, 'else': orelse}
     return table, probs, facts
+
+
+def date_result_eval(idx, owner, fn, consts, unit, n, ref, fut):
+    """interpret get_date_result(unit, n, ref, fut): (future_value, past_value) stored on the result, (None, None) when
+    the function returns without storing a value"""
+    def res(node):
+        if isinstance(node, ast.Attribute) and isinstance(node.value, ast.Name) and node.value.id == 'Constants' and node.attr in consts:
+            return consts[node.attr]
+        raise Undetermined('attribute %s' % ast.unparse(node)[:40])
+    ev = MiniEval(idx, owner, res)
+    rec = Obj()
+    env = {'unit_str': unit, 'num': n, 'reference': ref, 'is_future': fut, 'mode': '<mode>', 'result': rec}
+    for st in fn.body:
+        is_value = isinstance(st, ast.Assign) and isinstance(st.targets[0], ast.Attribute) and st.targets[0].attr in ('future_value', 'past_value')
+        try:
+            ev.block([st], env)
+        except _Return:
+            break
+        except (_Raised, OverflowError):
+            return None, None
+        except Undetermined as e:
+            if is_value or any(isinstance(x, (ast.Return,)) for x in ast.walk(st)) or _mentions(st, ('unit_str', 'num', 'is_future')):
+                raise AnalysisError('%s.%s cannot be interpreted: %s (%s)' % (owner.name, fn.name, e, ast.unparse(st)[:60]))
+            continue          # result object construction, TIMEX formatting by mode: not part of the value
+    return getattr(rec, 'future_value', None), getattr(rec, 'past_value', None)
+
+
+def _mentions(st, names):
+    return any(isinstance(x, ast.Name) and x.id in names for x in ast.walk(st))
+
+
+def date_result_expected(ref, L, k):
+    if L == 'D':
+        return ref + _dt.timedelta(days=k)
+    if L == 'W':
+        return ref + _dt.timedelta(days=7 * k)
+    if L == 'H':
+        return ref + _dt.timedelta(hours=k)
+    if L == 'M':
+        return ref + _dt.timedelta(minutes=k)
+    if L == 'S':
+        return ref + _dt.timedelta(seconds=k)
+    if L == 'MON':
+        return ref + DateDelta(months=k)
+    return ref + DateDelta(years=k)
 
 
 def swift_polarity(idx, fn, consts=None):
@@ -1265,7 +1345,8 @@ def oneword_case(idx, owner, fn, guard_name, ref, sw, swift_names, enum_vals, co
         raise Undetermined('attribute %s' % txt[:40])
 
     ev = MiniEval(idx, owner, res)
-    env = {'reference': ref, 'early_prefix': False, 'mid_prefix': False, 'late_prefix': False, 'result': '<result>'}
+    rec = Obj()
+    env = {'reference': ref, 'early_prefix': False, 'mid_prefix': False, 'late_prefix': False, 'result': rec}
     # way in: simple assignments only (conditions on the matched text are not interpreted)
     for stmts, i in path:
         for st in stmts[:i]:
@@ -1288,6 +1369,8 @@ def oneword_case(idx, owner, fn, guard_name, ref, sw, swift_names, enum_vals, co
         raise AnalysisError('%s[%s]: interpreted branch raises %s' % (fn.name, guard_name, type(r.exc).__name__))
     except Undetermined as e:
         raise AnalysisError('%s[%s]: branch cannot be interpreted: %s' % (fn.name, guard_name, e))
+    for k, v in rec.__dict__.items():          # stores made by a helper the branch delegates to
+        env.setdefault('result.' + k, v)
     return env
 
 
@@ -1506,14 +1589,15 @@ def weekday_phrase_eval(idx, W, parser, fn, cfg, slot, phrase, ref, enum_vals, c
             return True, Obj(match=args[0], success=bool(args[1]))
         return False, None
     ev.call_hook = hook
-    env = {'trimmed_source': phrase, 'source': phrase, 'reference': ref, 'result': '<result>'}
+    rec = Obj()
+    env = {'trimmed_source': phrase, 'source': phrase, 'reference': ref, 'result': rec}
     try:
         ev.block(stmts, env)
     except _Return:
         pass
     except Undetermined as e:
         raise AnalysisError('%s.parse_implicit_date[%s] cannot be interpreted on %r: %s' % (parser.name, slot, phrase, e))
-    return env.get('result.future_value')
+    return getattr(rec, 'future_value', env.get('result.future_value'))
 
 
 REF_PERIOD = {'is_week_only': ('days', 7), 'is_weekend': ('days', 7), 'is_month_only': ('months', 1), 'is_year_only': ('years', 1)}
@@ -1670,7 +1754,7 @@ def run(chk):
     upath = al.mod.path
     chk.consulted(upath)
 
-    # ---- C08.unit_delta / polarity
+    # ---- C08.unit_delta / polarity : decided by interpretation (any formulation: if/elif chain, table of builders ...)
     gdr = al.methods.get('get_date_result')
     galr = al.methods.get('get_ago_later_result')
     if gdr is None or galr is None:
@@ -1679,55 +1763,50 @@ def run(chk):
     for need in REF_DELTA:
         if need not in unit_consts:
             raise AnalysisError('Constants.UNIT_* no longer contains %r' % need)
-    table, probs, facts = unit_delta_table(gdr, consts)
-    swiftvars = set()
-    for ln, cons, msg in probs:
-        chk.bad('C08.unit_delta', upath, 'AgoLaterUtil.get_date_result[%s]' % cons, 'shape', msg, ln)
-    for L, (field, k) in REF_DELTA.items():
-        cons = "AgoLaterUtil.get_date_result[%r]" % L
-        if L not in table:
-            if not any(L in c for _, c, _ in probs):
-                chk.bad('C08.unit_delta', upath, cons, 'missing', 'unit %r has no branch in the unit chain' % L, gdr.lineno)
-            continue
-        ctor, f, c, names, ln = table[L]
-        others = tuple(n for n in names if n != 'num')
-        swiftvars |= set(others)
-        ok = (f, c) == (field, k) and ctor in CTOR_OK[f] and 'num' in names and len(names) == 2
-        chk.judge(ok, 'C08.unit_delta', upath, cons, '%s(%s = %d * %s)' % (ctor, f, c, ' * '.join(names)),
-                  'unit %r adds %s(%s=%d*%s); the reference table says %s*%d of num*swift' % (L, ctor, f, c, '*'.join(names), field, k), ln)
-    extra = sorted(set(table) - set(REF_DELTA))
-    if extra:
-        chk.observe('get_date_result has branches for units outside the reference table: %s' % extra)
-    # value starts at reference, both values are `value`
-    vv = facts['value_var']
-    t = Taint(gdr, 'reference')
-    init_ok = vv is not None and any(_is_name(v, 'reference') for v, g, ln in t.assigns.get(vv, []) if isinstance(v, ast.expr))
-    chk.judge(init_ok, 'C08.unit_delta', upath, 'AgoLaterUtil.get_date_result#base', '%s := reference' % vv,
-              'the value the deltas are added to does not start at `reference`', gdr.lineno)
-    res = {}
-    for n in ast.walk(gdr):
-        if isinstance(n, ast.Assign) and isinstance(n.targets[0], ast.Attribute) and n.targets[0].attr in ('future_value', 'past_value'):
-            res[n.targets[0].attr] = n.value
-    chk.judge(set(res) == {'future_value', 'past_value'} and all(_is_name(v, vv) for v in res.values()),
-              'C08.unit_delta', upath, 'AgoLaterUtil.get_date_result#result', 'future_value = past_value = %s' % vv,
-              'result values are not the shifted value', gdr.lineno)
+    for p_ in ('unit_str', 'num', 'reference', 'is_future'):
+        if p_ not in _param_names(gdr):
+            raise AnalysisError('get_date_result: parameter `%s` is gone (%s)' % (p_, _param_names(gdr)))
+    refs_ = [_dt.datetime(2016, 1, 31, 10, 30, 5), _dt.datetime(2016, 2, 29, 23, 59, 59), _dt.datetime(2015, 12, 31, 0, 0), _dt.datetime(2016, 11, 7, 12, 0)]
+    for L in REF_DELTA:
+        wrong, n_cases = [], 0
+        for ref in refs_:
+            for n in (1, 2, 5, 13, 30):
+                for fut in (True, False):
+                    got, gotp = date_result_eval(idx, al, gdr, consts, L, n, ref, fut)
+                    wantv = date_result_expected(ref, L, n if fut else -n)
+                    n_cases += 1
+                    if got != wantv or gotp != wantv:
+                        wrong.append('%s %s %d %s -> %s (expected %s)' % (ref, 'in' if fut else 'ago', n, L, got, wantv))
+        chk.judge(not wrong, 'C08.unit_delta', upath, "AgoLaterUtil.get_date_result[%r]" % L,
+                  '%d interpreted cases: reference +/- N %s' % (n_cases, '%s*%d' % REF_DELTA[L]) if not wrong else
+                  '%d of %d differ; first: %s' % (len(wrong), n_cases, wrong[0]),
+                  'unit %r: %s (%d of %d interpreted cases differ); the reference table says N x %s*%d, forward when is_future'
+                  % (L, wrong[0] if wrong else '', len(wrong), n_cases, REF_DELTA[L][0], REF_DELTA[L][1]), gdr.lineno)
+    # an unknown unit yields no value
+    gx, _gp = date_result_eval(idx, al, gdr, consts, 'no-such-unit', 1, refs_[0], True)
+    chk.judge(gx is None, 'C08.unit_delta', upath, 'AgoLaterUtil.get_date_result#unknown-unit', 'no value' if gx is None else str(gx),
+              'an unknown unit code yields the value %s' % gx, gdr.lineno)
     ctl_fn = ast.parse("def get_date_result(unit_str, num, reference, is_future, mode):\n    value = reference\n    swift = 1 if is_future else -1\n"
-                       "    if unit_str == 'W':\n        value += timedelta(days=num * swift)\n    return value\n").body[0]
-    ctl_t, _, _ = unit_delta_table(ctl_fn, consts)
-    chk.control('C08.unit_delta', ctl_t['W'][1:3] != REF_DELTA['W'])
+                       "    if unit_str == 'W':\n        value += timedelta(days=num * swift)\n    result.future_value = value\n    result.past_value = value\n    return result\n").body[0]
+    cg, _ = date_result_eval(idx, al, ctl_fn, consts, 'W', 1, refs_[3], True)
+    chk.control('C08.unit_delta', cg != refs_[3] + _dt.timedelta(days=7))
+    # the textual unit chain, when there is one, is kept as evidence
+    try:
+        table, probs, facts = unit_delta_table(gdr, consts)
+        if table:
+            chk.observe('get_date_result unit chain: ' + ', '.join('%s=%s(%s*%d)' % (k, v[0], v[1], v[2]) for k, v in sorted(table.items())))
+    except AnalysisError:
+        chk.observe('get_date_result has no `unit_str == Constants.UNIT_*` chain; the unit table is decided by interpretation only')
 
-    if len(swiftvars) != 1:
-        chk.bad('C08.polarity', upath, 'AgoLaterUtil.get_date_result#swift', 'factors %s' % sorted(swiftvars),
-                'the deltas are not all multiplied by one and the same sign factor: %s' % sorted(swiftvars), gdr.lineno)
-    else:
-        sv = next(iter(swiftvars))
-        pol = swift_polarity(idx, gdr, consts)
-        for fut, want in ((True, 1), (False, -1)):
-            got = pol[fut].get(sv)
-            chk.judge(got == want, 'C08.polarity', upath, 'AgoLaterUtil.get_date_result#swift[is_future=%s]' % fut,
-                      '%s = %r' % (sv, got), 'with is_future=%s the sign factor `%s` is %r, expected %d' % (fut, sv, got, want), gdr.lineno)
-    ctl = ast.parse("def f(unit_str, num, reference, is_future, mode):\n    swift = -1 if is_future else 1\n    if unit_str == 'D':\n        pass\n").body[0]
-    chk.control('C08.polarity', swift_polarity(idx, ctl, consts)[True].get('swift') != 1)
+    for fut, sign in ((True, 1), (False, -1)):
+        got, _gp = date_result_eval(idx, al, gdr, consts, 'D', 1, refs_[3], fut)
+        chk.judge(got == refs_[3] + _dt.timedelta(days=sign), 'C08.polarity', upath, 'AgoLaterUtil.get_date_result#swift[is_future=%s]' % fut,
+                  '1 D -> %s' % got, 'with is_future=%s one day moves the reference %s to %s, expected %s'
+                  % (fut, refs_[3], got, refs_[3] + _dt.timedelta(days=sign)), gdr.lineno)
+    ctl = ast.parse("def f(unit_str, num, reference, is_future, mode):\n    swift = -1 if is_future else 1\n    value = reference + timedelta(days=num * swift)\n"
+                    "    result.future_value = value\n    result.past_value = value\n    return result\n").body[0]
+    cg, _ = date_result_eval(idx, al, ctl, consts, 'D', 1, refs_[3], True)
+    chk.control('C08.polarity', cg != refs_[3] + _dt.timedelta(days=1))
 
     # ---- C08.agolater
     br = agolater_branches(galr, _param_names(gdr), tconsts)
@@ -2316,79 +2395,38 @@ def run(chk):
 
 
 def thorough(chk):
-    """deeper bounded enumeration: interpret get_date_result for every unit, N in a spread of values and both
-    polarities over reference dates that include month ends, a leap day and a year boundary"""
+    """deeper bounded enumeration: get_date_result interpreted for every unit, a wide spread of N and both polarities over
+    reference dates that include month ends, a leap day and a year boundary"""
     idx = get_index()
     consts = class_consts(idx, DT + 'constants.Constants')
     al = idx.cls(DT + 'utilities.AgoLaterUtil')
     gdr = al.methods['get_date_result']
-    chk.rule('C08.unit_delta.sem', 'get_date_result interpreted: value = reference +/- N units (calendar arithmetic)', floor=7)
-
-    def res(node):
-        if isinstance(node, ast.Attribute) and isinstance(node.value, ast.Name) and node.value.id == 'Constants' and node.attr in consts:
-            return consts[node.attr]
-        raise Undetermined('attribute %s' % ast.unparse(node))
-
-    # stop before the result object is filled: interpret only up to the end of the unit chain
-    body = []
-    for st in gdr.body:
-        body.append(st)
-        if isinstance(st, ast.If) and _eq_letters(st.test, 'unit_str', consts) is not None:
-            break
+    chk.rule('C08.unit_delta.sem', 'get_date_result interpreted: value = reference +/- N units (calendar arithmetic), N up to 5000', floor=7)
     refs = [_dt.datetime(2016, 1, 31, 10, 30), _dt.datetime(2016, 2, 29, 23, 59, 59), _dt.datetime(2015, 12, 31, 0, 0),
             _dt.datetime(2016, 11, 7, 12, 0), _dt.datetime(2017, 3, 31, 6, 0)]
     ns = [1, 2, 5, 12, 13, 30, 365, 5000]
-
-    def want(ref, L, n):
-        if L == 'D':
-            return ref + _dt.timedelta(days=n)
-        if L == 'W':
-            return ref + _dt.timedelta(days=7 * n)
-        if L == 'H':
-            return ref + _dt.timedelta(hours=n)
-        if L == 'M':
-            return ref + _dt.timedelta(minutes=n)
-        if L == 'S':
-            return ref + _dt.timedelta(seconds=n)
-        if L == 'MON':
-            return ref + DateDelta(months=n)
-        return ref + DateDelta(years=n)
-
     for L in REF_DELTA:
-        bad = None
-        cnt = 0
+        bad, cnt = None, 0
         for ref in refs:
             for n in ns:
                 for fut in (True, False):
-                    if L in ('MON', 'Y') and not (1 <= ref.year + (n if L == 'Y' else n // 12 + 1) * (1 if fut else -1) <= 9998):
+                    k = n if fut else -n
+                    if L == 'Y' and not (1 <= ref.year + k <= 9998):
                         continue
-                    ev = MiniEval(idx, al, res)
-                    env = {'unit_str': L, 'num': n, 'reference': ref, 'is_future': fut, 'mode': None,
-                           'DateTimeResolutionResult': None}
-                    try:
-                        stmts = [s for s in body if not (isinstance(s, ast.Assign) and isinstance(s.value, ast.Call)
-                                                          and _callee_name(s.value) == 'DateTimeResolutionResult')]
-                        try:
-                            ev.block(stmts, env)
-                        except _Return:
-                            pass
-                    except Undetermined as e:
-                        raise AnalysisError('get_date_result cannot be interpreted: %s' % e)
-                    except OverflowError:
+                    if L == 'MON' and not (1 <= ref.year + k // 12 - 1 and ref.year + k // 12 + 1 <= 9998):
                         continue
                     try:
-                        w = want(ref, L, n if fut else -n)
+                        w = date_result_expected(ref, L, k)
                     except (OverflowError, ValueError):
                         continue
+                    got, gotp = date_result_eval(idx, al, gdr, consts, L, n, ref, fut)
                     cnt += 1
-                    vals = [v for k, v in env.items() if isinstance(v, _dt.datetime) and k != 'reference']
-                    if w not in vals and bad is None:
-                        bad = (ref, n, fut, vals, w)
+                    if (got != w or gotp != w) and bad is None:
+                        bad = (ref, n, fut, got, w)
         chk.judge(bad is None, 'C08.unit_delta.sem', al.mod.path, 'AgoLaterUtil.get_date_result[%r]#interpreted' % L,
                   '%d interpreted cases' % cnt,
                   'unit %r: reference %s, N=%s, is_future=%s gives %s, calendar arithmetic gives %s' % ((L,) + (bad or (0, 0, 0, 0, 0))),
                   gdr.lineno)
-
 
 
 # ---------------------------------------------------------------------------------------------------------------
